@@ -39,7 +39,21 @@ Inductive obs :=
 | OCell (r : cell_result) (c : cache)
 | OBool (b : option bool)                                (* None = raised *)
 | OStyle (s : option style)
-| ORaw (r : option (list byte)).
+| ORaw (r : option (list byte))
+| OSession (r : list sres).                              (* one result per call of the epoch *)
+
+Definition cv_eq (a b : colour_value) : bool :=
+  match a, b with
+  | VRgb x, VRgb y => pair_eq (oeq rgb_eq) (oeq rgb_eq) x y
+  | VHex x, VHex y => pair_eq (oeq beq) (oeq beq) x y
+  | _, _ => false
+  end.
+Definition sres_eq (a b : sres) : bool :=
+  match a, b with
+  | RFg x, RFg y => oeq cv_eq x y
+  | RNv n v, RNv n2 v2 => oeq beq n n2 && oeq beq v v2
+  | _, _ => false
+  end.
 
 Definition obs_eq (a b : obs) : bool :=
   match a, b with
@@ -49,10 +63,14 @@ Definition obs_eq (a b : obs) : bool :=
   | OBool x, OBool y => oeq Bool.eqb x y
   | OStyle x, OStyle y => oeq style_eq x y
   | ORaw x, ORaw y => oeq beq x y
+  | OSession x, OSession y => leq sres_eq x y
   | _, _ => false
   end.
 
-Inductive opk := OpFgBg | OpNameVer | OpCell | OpKitty | OpIterm2 | OpAuto | OpRawCsi | OpRawC.
+(** [OpSession calls]: the calls of ONE cache epoch (several argument forms of the colour
+    getter, repeated name/version calls), in order, from freshly invalidated caches *)
+Inductive opk := OpFgBg | OpNameVer | OpCell | OpKitty | OpIterm2 | OpAuto | OpRawCsi | OpRawC
+               | OpSession (calls : list scall).
 
 (** ** pty cases: the real functions against a real pty, in real time *)
 
@@ -101,6 +119,8 @@ Definition run_model (p : pcase) : obs * tty :=
   | OpAuto => let (r, w) := auto_image_class unit_cost cfg term (tty0, None) in (OStyle r, fst w)
   | OpRawCsi => let (r, st) := query unit_cost cfg term more_not_csi (pc_raw_request p) tty0 in (ORaw r, st)
   | OpRawC => let (r, st) := query unit_cost cfg term more_not_c (pc_raw_request p) tty0 in (ORaw r, st)
+  | OpSession calls =>
+      let (r, w) := session unit_cost cfg term calls (tty0, [], None) in (OSession r, fst (fst w))
   end.
 
 (** the bursts deliver whole replies: every burst is a run of whole units *)
@@ -144,6 +164,7 @@ Definition exp_obs (p : pcase) : option obs :=
   | OpKitty => Some (OBool (Some (exp_kitty cfg pr)))
   | OpIterm2 => Some (OBool (Some (exp_iterm2 cfg pr)))
   | OpAuto => Some (OStyle (Some (exp_auto cfg pr)))
+  | OpSession calls => Some (OSession (map (exp_call cfg pr) calls))
   | _ => None
   end.
 
@@ -255,6 +276,29 @@ Definition fast_model (f : fcase) : obs * list (list byte) * nat :=
       (OCell r c, if need && en then [CELL_SIZE_PX_q ++ TEXT_AREA_SIZE_PX_q ++ DA1_q] else [], 0%nat)
   | OpKitty => (OBool (Some k), xtv_req ++ kitty_req, if en then 1%nat else 0%nat)
   | OpIterm2 => (OBool i, xtv_req, if en then 1%nat else 0%nat)
+  | OpSession calls =>
+      (* resp1 answers the colour query, resp2 the XTVERSION query; each memo miss is one
+         request and (queries enabled) one read_tty() *)
+      let nv2 := name_version_of_response cfg r2 in
+      let step (acc : list sres * fg_memo * bool * list (list byte)) (call : scall) :=
+          let '(out, mfg, nvdone, reqs) := acc in
+          match call with
+          | SFg f =>
+              match lookup_form f mfg with
+              | Some v => (out ++ [RFg (Some v)], mfg, nvdone, reqs)
+              | None =>
+                  let reqs' := reqs ++ (if en then [TEXT_FG_q ++ TEXT_BG_q ++ DA1_q] else []) in
+                  match colors_of_response r1 with
+                  | None => (out ++ [RFg None], mfg, nvdone, reqs')
+                  | Some cs => let v := represent (form_hex f) cs in
+                               (out ++ [RFg (Some v)], (f, v) :: mfg, nvdone, reqs')
+                  end
+              end
+          | SNv => (out ++ [RNv (fst nv2) (snd nv2)], mfg, true,
+                    if nvdone then reqs else reqs ++ xtv_req)
+          end in
+      let '(out, _, _, reqs) := fold_left step calls ([], [], false, []) in
+      (OSession out, reqs, if en then length reqs else 0%nat)
   | _ => (OStyle (if k then Some Kitty
                   else match i with Some true => Some Iterm2 | Some false => Some Block | None => None end),
           xtv_req ++ kitty_req, if en then 1%nat else 0%nat)
@@ -272,10 +316,12 @@ Definition exp_resp2 (p : profile) : list byte := concat (answer p QKitty ++ ans
 
 Definition fast_in_hyp (f : fcase) : bool :=
   wf_profile (fc_profile f) &&
-  oeq beq (fc_resp1 f) (Some (exp_resp1 (fc_op f) (fc_profile f))) &&
   match fc_op f with
-  | OpKitty | OpAuto => oeq beq (fc_resp2 f) (Some (exp_resp2 (fc_profile f)))
-  | _ => true
+  | OpSession _ => oeq beq (fc_resp1 f) (Some (exp_resp1 OpFgBg (fc_profile f))) &&
+                   oeq beq (fc_resp2 f) (Some (exp_resp1 OpNameVer (fc_profile f)))
+  | OpKitty | OpAuto => oeq beq (fc_resp1 f) (Some (exp_resp1 (fc_op f) (fc_profile f))) &&
+                        oeq beq (fc_resp2 f) (Some (exp_resp2 (fc_profile f)))
+  | _ => oeq beq (fc_resp1 f) (Some (exp_resp1 (fc_op f) (fc_profile f)))
   end.
 
 Definition check_fast (f : fcase) : nat :=
